@@ -10,6 +10,7 @@ import (
 	"math/rand"
 	"os"
 	"runtime"
+	"strings"
 	"sync"
 
 	"filippo.io/age/internal/verifhook"
@@ -24,6 +25,8 @@ func main() {
 	file := flag.String("histories", "", "JSON lines of {progs:[[ops]...]}")
 	seed := flag.Int64("seed", 1, "")
 	rounds := flag.Int("rounds", 3, "")
+	stress := flag.Int("stress", 1500, "decryptions per goroutine in the volume part")
+	stressKinds := flag.String("stress-kinds", "scrypt,x25519,ssh-ed25519", "")
 	flag.Parse()
 	b, err := os.ReadFile(*file)
 	if err != nil {
@@ -81,6 +84,42 @@ func main() {
 						if bad < 10 {
 							fmt.Printf("WRONG-RESULT kind=%s history=%v proc=%d: %s\n", kind, h.Progs, p, msg)
 						}
+					}
+				}
+			}
+		}
+	}
+	// volume: many goroutines hammering ONE identity value (and one shared identity list) with decryptions of rotating
+	// files; a value remembered from one file and read back for another shows only as a rare wrong result
+	for _, kind := range strings.Split(*stressKinds, ",") {
+		s, err := conc.NewShared(kind, 64)
+		if err != nil {
+			fmt.Fprintln(os.Stderr, "setup:", err)
+			os.Exit(2)
+		}
+		const G = 16
+		res := make([][]conc.Result, G)
+		var wg sync.WaitGroup
+		start := make(chan struct{})
+		for p := 0; p < G; p++ {
+			wg.Add(1)
+			go func(p int) {
+				defer wg.Done()
+				<-start
+				for r := 0; r < *stress; r++ {
+					res[p] = append(res[p], s.Do("dec"))
+				}
+			}(p)
+		}
+		close(start)
+		wg.Wait()
+		for p := range res {
+			for _, r := range res[p] {
+				ops++
+				if msg := s.Verify(r); msg != "" {
+					bad++
+					if bad < 10 {
+						fmt.Printf("WRONG-RESULT kind=%s stress proc=%d: %s\n", kind, p, msg)
 					}
 				}
 			}
